@@ -41,7 +41,17 @@ class _LoadAndSave:
         self._load_first = load_first
 
     def __enter__(self):
-        self._collection._thread_lock.__enter__()
+        # The lock is looked up through the collection, and pointing the
+        # collection at another resource (e.g. setting the filename) while
+        # this thread waits swaps the lock: after acquiring, check that this
+        # still is the collection's lock, so that __exit__ releases the lock
+        # that is actually held.
+        while True:
+            lock = self._collection._thread_lock
+            lock.__enter__()
+            if self._collection._thread_lock is lock:
+                break
+            lock.__exit__(None, None, None)
         try:
             if self._load_first:
                 self._collection._load()
